@@ -63,6 +63,9 @@ pub struct Presentation {
     /// refuse these (deny_unknown_fields, duplicate-field errors): Err is tolerated, Ok must restore exactly.
     #[serde(default)]
     pub noise: Noise,
+    /// MapAccess / SeqAccess answer None to size_hint (streaming formats) instead of the number of remaining entries
+    #[serde(default)]
+    pub no_size_hint: bool,
 }
 
 #[derive(Clone, Copy, Debug, Serialize, Deserialize, PartialEq, Default)]
@@ -273,7 +276,7 @@ impl<'de> de::MapAccess<'de> for MapAcc<'de> {
         seed.deserialize(SimDe { node: &self.fields[i].1, path: crate::rng::mix(self.de.path, i as u64 + 1), ..self.de })
     }
     fn size_hint(&self) -> Option<usize> {
-        Some(self.order.len() - self.pos)
+        (!self.de.p.no_size_hint).then(|| self.order.len() - self.pos)
     }
 }
 
@@ -296,7 +299,7 @@ impl<'de> de::SeqAccess<'de> for SeqAcc<'de> {
         seed.deserialize(SimDe { node: &self.fields[i].1, path: crate::rng::mix(self.de.path, i as u64 + 1), ..self.de }).map(Some)
     }
     fn size_hint(&self) -> Option<usize> {
-        Some(self.fields.len() - self.pos)
+        (!self.de.p.no_size_hint).then(|| self.fields.len() - self.pos)
     }
 }
 
